@@ -51,7 +51,7 @@ ASSUMPTIONS = [
     "io theorems: counter names are words without ':' and each appears on one line; junk lines contain no ': '",
 ]
 MANIFEST = {
-    "level_text": "Machine-checked Lean 4 proofs over a model of _pslinux.Process.open_files/num_fds/io_counters, readlink() and file_flags_to_mode(): the mode string is the documented function of O_ACCMODE x O_APPEND for EVERY flag word (other bits proved irrelevant, total including access mode 3), open_files over the kernel-rendered descriptor table equals the list of still-open regular absolute descriptors for ALL tables (induction; pos decimal, flags octal round trip for all naturals), closing descriptors (before readlink, before the open of fdinfo, or after it at the first/second read; ENOENT/ESRCH; any subset) never fail a live process, a vanished process gives NoSuchProcess, refusals (EACCES at the readlink, at the os.stat of the target through isfile_strict/path_exists_strict, at the open of fdinfo, at listing /proc/pid/fd) give AccessDenied(pid) and never a bare PermissionError or a silently shortened list, only a successfully stat'ed regular absolute target ever yields an entry (relative targets are never stat'ed), a zombie with an empty table gives [] / 0 and ENOENT/ESRCH about a zombie is ZombieProcess, num_fds = table length, io_counters returns the six kernel counters under the documented names for all values and tolerates blank / junk / unknown / non-numeric extra lines. Tied to the code by 34 translator facts (incl. the PermissionError rows of isfile_strict, path_exists_strict, the loop's handlers and wrap_exceptions) consumed by the proof obligations cfg_good_* and by a differential run of the real front-end methods on a fake procfs in seven call modes (plain, oneshot, warm oneshot after a world change, as_dict, process_iter object first/cached, second call) (exhaustive over all 4096 low flag words, both through file_flags_to_mode and end to end; all modes x methods on the corpus).",
+    "level_text": "Machine-checked Lean 4 proofs over a model of _pslinux.Process.open_files/num_fds/io_counters, readlink() and file_flags_to_mode(): the mode string is the documented function of O_ACCMODE x O_APPEND for EVERY flag word (other bits proved irrelevant, total including access mode 3), open_files over the kernel-rendered descriptor table equals the list of still-open regular absolute descriptors for ALL tables (induction; pos decimal, flags octal round trip for all naturals), closing descriptors (before readlink, before the open of fdinfo, or after it at the first/second read; ENOENT/ESRCH; any subset) never fail a live process, a vanished process gives NoSuchProcess, refusals (EACCES at the readlink, at the os.stat of the target through isfile_strict/path_exists_strict, at the open of fdinfo, at listing /proc/pid/fd) give AccessDenied(pid) and never a bare PermissionError or a silently shortened list, only a successfully stat'ed regular absolute target ever yields an entry (relative targets are never stat'ed), a zombie with an empty table gives [] / 0 and ENOENT/ESRCH about a zombie is ZombieProcess, num_fds = table length, io_counters returns the six kernel counters under the documented names for all values and tolerates blank / junk / unknown / non-numeric extra lines. Tied to the code by 35 translator facts (incl. filterExact: the listing filter has no clause about the path besides startswith('/')) (incl. the PermissionError rows of isfile_strict, path_exists_strict, the loop's handlers and wrap_exceptions) consumed by the proof obligations cfg_good_* and by a differential run of the real front-end methods on a fake procfs in seven call modes (plain, oneshot, warm oneshot after a world change, as_dict, process_iter object first/cached, second call) (exhaustive over all 4096 low flag words, both through file_flags_to_mode and end to end; all modes x methods on the corpus).",
     "level_note": "Trusted: Lean kernel + {propext, Classical.choice, Quot.sound}; the translator; the correspondence harness; kernel formats as written in Spec/C14.lean; CPython int/split/strip/replace as modelled; EACCES and the zombie state are injected by the harness, not produced by a real kernel permission check.",
     "technique": "Lean 4 proofs (finite case analysis on flags via bit lemmas, list induction over tables, round trip of decimal/octal renderers) + translator-fed proof obligation + differential correspondence on a fake procfs",
     "design_ref": "DESIGN.md §5 C14",
@@ -99,6 +99,22 @@ POOL_MISSING = [b"gone.txt", b"gone (deleted)", b"sub/none", b"dir/inside"]
 SEC = b"sec/"
 POOL_DENIED = [b"sec/hidden.txt", b"sec/unlinked", b"sec/x (deleted)", b"sec/deep/er"]
 
+# The KIND of a target is what the scripted os.stat answers, never its name: every (prefix, kind)
+# below is a path whose os.stat is answered with the stat of a real regular file / directory /
+# FIFO / character device of the pool, or ENOENT ("none"). Regular files live under /dev/ (POSIX
+# shared memory in /dev/shm, anything on that tmpfs), /proc/, /sys/, /run/ and under
+# device-looking names; device nodes live outside /dev.
+V_PREFIXES = [b"/dev/", b"/dev/shm/", b"/dev/pts/", b"/proc/", b"/sys/", b"/run/", b"/"]
+V_KINDS = ["file", "dir", "fifo", "chr", "none"]
+VIRTUAL = {pre + b"psv-c14-" + k.encode(): k for pre in V_PREFIXES for k in V_KINDS}
+VIRTUAL.update({b"/dev/sda1": "file", b"/dev/tty7": "file", b"/dev/shm/x": "file", b"/dev/urandom0": "file",
+                b"/dev/shm/sem.psv (deleted)": "file", b"/proc/1/psv-c14-mem": "file",
+                b"/dev/psv-c14-unlinked": "none"})
+V_ROOT_NODES = {b"nodes/chr": "chr", b"nodes/null": "chr", b"dev/null": "chr"}     # device nodes outside /dev
+V_FILES = sorted(k for k, v in VIRTUAL.items() if v == "file")
+V_OTHERS = sorted(k for k, v in VIRTUAL.items() if v in ("dir", "fifo", "chr"))
+V_NONE = sorted(k for k, v in VIRTUAL.items() if v == "none")
+
 MODES = ["plain", "oneshot", "warm", "as_dict", "iter", "iter2", "second"]
 DECOY_MODES = ("warm", "second")
 AD_VALUE = "<<ad_value>>"
@@ -136,9 +152,24 @@ class Impl:
         for f in POOL_FIFOS:
             os.mkfifo(os.fsencode(self.root) + b"/" + f)
         self.sec = os.fsencode(self.root) + b"/" + SEC
+        rootb = os.fsencode(self.root)
+        backing = {"file": rootb + b"/f0", "dir": rootb + b"/dir", "fifo": rootb + b"/fifo", "chr": b"/dev/null"}
+        self.virtual = {k: backing.get(v) for k, v in VIRTUAL.items()}
+        self.virtual.update({rootb + b"/" + k: backing[v] for k, v in V_ROOT_NODES.items()})
         self.real_readlink = os.readlink
         self.real_listdir = os.listdir
         self.stat_cache = {}
+
+    def scripted_stat(self, path_bytes, real_stat):
+        """os.stat as the monitor sees it: refused under sec/, scripted for the virtual names"""
+        if path_bytes.startswith(self.sec):
+            raise OSError(errno.EACCES, os.strerror(errno.EACCES), os.fsdecode(path_bytes))
+        if path_bytes in self.virtual:
+            b = self.virtual[path_bytes]
+            if b is None:
+                raise OSError(errno.ENOENT, os.strerror(errno.ENOENT), os.fsdecode(path_bytes))
+            return real_stat(b)
+        return None
 
     def close(self):
         self.fp.close()
@@ -153,7 +184,7 @@ class Impl:
             r = "denied"
         elif b"\x00" not in path_bytes and path_bytes:
             try:
-                st = os.stat(path_bytes)
+                st = self.scripted_stat(path_bytes, os.stat) or os.stat(path_bytes)
                 r = "file" if stat_mod.S_ISREG(st.st_mode) else "other"
             except OSError:
                 r = "none"
@@ -365,8 +396,10 @@ class Impl:
             # `_raise_if_not_alive` looks at /proc/<pid>: the process is reaped right before
             if gone_after and path in (base, base + "/stat"):
                 shutil.rmtree(base, ignore_errors=True)
-            if isinstance(path, (str, bytes)) and os.fsencode(path).startswith(sec):
-                raise OSError(errno.EACCES, os.strerror(errno.EACCES), path)
+            if isinstance(path, (str, bytes)):
+                st = self.scripted_stat(os.fsencode(path), real_stat)
+                if st is not None:
+                    return st
             return real_stat(path, *a, **kw)
 
         def fake_open(file, *a, **kw):
@@ -706,6 +739,13 @@ def table_features(case, out):
     for d in case["fds"]:
         k = d["kind"]
         f.add("kind-" + k["t"])
+        if k["t"] in ("regular", "device") and k["path"][0] == "A":
+            pb = bytes.fromhex(k["path"][1])
+            for pre in (b"/dev/", b"/proc/", b"/sys/", b"/run/"):
+                if pb.startswith(pre):
+                    f.add("%s-under-%s" % (k["t"], pre.decode().strip("/")))
+        if k["t"] == "device" and k["path"][0] == "R" and bytes.fromhex(k["path"][1]) in V_ROOT_NODES:
+            f.add("device-node-outside-dev")
         if k["t"] == "regular" and k.get("deleted"):
             f.add("deleted-suffix")
         if d.get("closes"):
@@ -769,7 +809,21 @@ TAILS = [b"", b"mnt_id:\t29\nino:\t1234\n", b"mnt_id:\t15\n", b"mnt_id:\t29\nino
          b"mnt_id:\t1\neventfd-count: 0\n", b"\n\n", b"garbage without newline"]
 
 
+def gen_virtual_kind(rng):
+    """kind decided by the scripted os.stat, path from any prefix"""
+    r = rng.random()
+    if r < 0.5:
+        return {"t": "regular", "path": A(rng.choice(V_FILES)), "deleted": False}
+    if r < 0.6:          # unlinked: the name without the marker is gone (or was re-created: stale marker)
+        return {"t": "regular", "path": A(rng.choice(V_NONE + [b"/dev/shm/x", b"/dev/sda1"])), "deleted": True}
+    if r < 0.9:
+        return {"t": "device", "path": rng.choice([A(x) for x in V_OTHERS] + [P(x) for x in V_ROOT_NODES])}
+    return {"t": "device", "path": A(rng.choice(V_NONE))}
+
+
 def gen_kind(rng, allow_ambiguous=True):
+    if rng.random() < 0.18:
+        return gen_virtual_kind(rng)
     r = rng.random()
     if r < 0.42:
         reg = [P(f) for f in POOL_FILES if not (f.startswith(b"amb") and not allow_ambiguous)]
@@ -879,6 +933,36 @@ def gen_table(rng, family):
 
 TABLE_FAMILIES = ["mixed", "regular_only", "closing", "all_closing", "deleted", "dies", "gone", "small",
                   "ambiguous", "empty", "mixed", "closing", "denied", "zombie", "denied", "exits"]
+
+
+def kind_prefix_sweep():
+    """EXHAUSTIVE: every scripted kind x every path prefix (x unlinked marker), one descriptor per
+    table, plus one table per prefix holding all of them next to a control file"""
+    def fd(n, kind, flags=2):
+        return {"n": n, "kind": kind, "pos": n, "flags": flags, "tail": "", "closes": None}
+
+    def as_kind(path, k, deleted):
+        if k == "file" or (k == "none" and deleted):
+            return {"t": "regular", "path": path, "deleted": deleted}
+        return {"t": "device", "path": path}
+    out = []
+    names = [(A(pre + b"psv-c14-" + k.encode()), k, pre) for pre in V_PREFIXES for k in V_KINDS]
+    names += [(A(p), VIRTUAL[p], b"special") for p in (b"/dev/sda1", b"/dev/tty7", b"/dev/shm/x", b"/dev/urandom0",
+                                                        b"/proc/1/psv-c14-mem", b"/dev/psv-c14-unlinked")]
+    names += [(P(p), k, b"root") for p, k in V_ROOT_NODES.items()] + [(P(b"f0"), "file", b"root"), (P(b"dir"), "dir", b"root"),
+                                                                       (P(b"fifo"), "fifo", b"root"), (P(b"gone.txt"), "none", b"root")]
+    for path, k, pre in names:
+        for deleted in ((False, True) if k in ("file", "none") else (False,)):
+            out.append({"family": "kind_x_prefix", "gone_before": False, "dies_at": None, "mode": "plain",
+                        "fds": [fd(3, as_kind(path, k, deleted), flags=0o100002)]})
+    by_pre = {}
+    for path, k, pre in names:
+        by_pre.setdefault(pre, []).append((path, k))
+    for pre, lst in sorted(by_pre.items()):
+        fds = [fd(3, {"t": "regular", "path": P(b"data.log"), "deleted": False})]
+        fds += [fd(10 + i, as_kind(path, k, False), flags=i % 3) for i, (path, k) in enumerate(lst)]
+        out.append({"family": "kind_x_prefix", "gone_before": False, "dies_at": None, "mode": "plain", "fds": fds})
+    return out
 
 
 def flag_sweep_tables(words, per=64):
@@ -1090,6 +1174,15 @@ def corpus_tables():
             {"n": 4, "kind": reg, "pos": 1, "flags": 1, "tail": "", "closes": {"stage": "readlink", "errno": "ENOENT"}},
             {"n": 5, "kind": reg, "pos": 1, "flags": 0, "tail": "", "closes": {"stage": "readlink", "errno": "ENOENT"}}]},
         {"family": "corpus-zombie-dir-denied", "fds": [], "gone_before": False, "dies_at": None, "zombie": True, "dir_denied": True},
+        # seeded C14-3: POSIX shared memory is a REGULAR file under /dev/shm; /dev/null is not; control file elsewhere
+        {"family": "corpus-dev-shm", "fds": [
+            {"n": 0, "kind": {"t": "device", "path": A("/dev/null")}, "pos": 0, "flags": 0o100002, "tail": "", "closes": None},
+            {"n": 3, "kind": {"t": "regular", "path": A("/dev/shm/x"), "deleted": False}, "pos": 4096, "flags": 0o100002, "tail": "", "closes": None},
+            {"n": 4, "kind": reg, "pos": 1, "flags": 0o101001, "tail": "", "closes": None},
+            {"n": 5, "kind": {"t": "regular", "path": A("/dev/shm/sem.psv (deleted)"), "deleted": False}, "pos": 0, "flags": 2, "tail": "", "closes": None},
+            {"n": 6, "kind": {"t": "regular", "path": A("/dev/sda1"), "deleted": False}, "pos": 0, "flags": 0, "tail": "", "closes": None},
+            {"n": 7, "kind": {"t": "device", "path": P(b"nodes/chr")}, "pos": 0, "flags": 2, "tail": "", "closes": None}],
+         "gone_before": False, "dies_at": None},
         # isfile_strict on things that are not regular files: directory, FIFO, dangling, newline in the name
         {"family": "corpus-kinds", "fds": [
             {"n": 3, "kind": {"t": "device", "path": P(b"dir")}, "pos": 0, "flags": 0o200000, "tail": "", "closes": None},
@@ -1157,7 +1250,9 @@ def correspond(ctx, res):
         sweep = flag_sweep_tables(words) + flag_sweep_tables([w | 0o100000 | 0o2000000 for w in range(0, 4096, 64)])
         # ---- corpus, then the families
         base_corpus = corpus_tables()
-        tables = [dict(c, mode=m, family=c["family"]) for m in MODES for c in base_corpus] + sweep
+        kp = kind_prefix_sweep()
+        res.extra["kind_x_prefix_tables"] = len(kp)
+        tables = [dict(c, mode=m, family=c["family"]) for m in MODES for c in base_corpus] + kp + sweep
         n = ctx.n(260, 12000)
         for i in range(n):
             tables.append(gen_table(ctx.rng, TABLE_FAMILIES[i % len(TABLE_FAMILIES)]))
@@ -1176,7 +1271,9 @@ def correspond(ctx, res):
         lines += run_io_raws(ctx, impl, [dict(c, family=f, mode=m) for m in MODES for f, c in IO_RAW], res)
         res.exhaustive = ("all 4096 combinations of the twelve low flag bits (access mode x O_CREAT/O_EXCL/O_NOCTTY/O_TRUNC/"
                           "O_APPEND/O_NONBLOCK and the unnamed low bits) through file_flags_to_mode AND end to end through "
-                          "open_files() on 64 tables of 64 regular descriptors; every call mode (%s) x every method on the "
+                          "open_files() on 64 tables of 64 regular descriptors; every scripted target kind (regular file, directory, FIFO, "
+                          "character device, dangling) x every path prefix (/dev/, /dev/shm/, /dev/pts/, /proc/, /sys/, /run/, /, the "
+                          "temp root, device-looking names) x unlinked marker, one descriptor per table and all together; every call mode (%s) x every method on the "
                           "clause-directed corpus (%d tables incl. the permission / zombie / file-kind ones, %d io files, %d raw io "
                           "cases); tables, io files and the malformed stream are samples, each in a mode drawn at random"
                           % (", ".join(MODES), len(base_corpus), len(corpus_io()), len(IO_RAW)))
